@@ -124,14 +124,19 @@ def fibre(
         match_ix.append((A.tolist(), (Bx[::-1] if rev else Bx).tolist()))
     gamma = float(rng.uniform(470.0, 495.0))
     dalpha = float(rng.uniform(-8e-5, 8e-5)) * (100.0 / max(span, 1.0)) ** 0.5
-    # splices
+    # splices: placed so that at least two reference locations lie on either side (otherwise the loss is not determinable)
+    ref_ix = np.array(sorted(i for b, a, e in segs if b is not None for i in range(a, e + 1)))
     tas = []
     for k in range(nta):
         on = bool(rng.random() < 0.5) if ta_on_grid is None else ta_on_grid
-        j = int(rng.integers(2, nx - 2))
+        cands = [j for j in range(2, nx - 2) if (ref_ix < j).sum() >= 2 and (ref_ix > j + (0 if on else 0)).sum() >= 2
+                 and all(abs(x[j] - q) > 1e-9 and abs((x[j] + x[j + 1]) / 2 - q) > 1e-9 for q in tas)]
+        # every segment between consecutive splices must also keep two reference locations
+        cands = [j for j in cands if all(((ref_ix > min(j, np.searchsorted(x, q))) & (ref_ix < max(j, np.searchsorted(x, q)))).sum() >= 2 for q in tas)]
+        if not cands:
+            break
+        j = int(rng.choice(cands))
         pos = float(x[j]) if on else float((x[j] + x[j + 1]) / 2)
-        if any(abs(pos - p) < 1e-9 for p in tas):
-            continue
         tas.append(pos)
     tas = sorted(tas)
     nta = len(tas)
